@@ -19,7 +19,7 @@ LEVEL_TEXT = ('Lean 4 theorems, for all shapes/targets/parities: pad (2-D and cu
               'distance k, pairwise distinct; the segment numbering is the statement-by-statement translation of the source loop (segment_numbering_translated) and a k-ring aperture has 1+3k(k+1) distinct cells minus the dropped numbers in range; for seg_gap > 0 '
               'two segments at distinct cells share no pixel (separating-axis argument over any ordered field, both orientations, with the '
               'exact sin/cos tables of the edge normals proved over R) and, for pad >= 2, every pixel of value 1 of a NON-ANTIALIASED segment has row/column index in '
-              '[1, size-2] (clear of the border; the half-pixel wider support of the antialiased default is judged by the oracle only) — both also restated over the regenerated size / pitch / hex_to_rc expressions the driver runs; drawing and padding commute, cropping is sub-array extraction. PARTIAL: equal area up to edge sampling is checked on the real code only (no theorem); '
+              '[1, size-2] (clear of the border), and so has every pixel with a non-zero value of an ANTIALIASED segment — the library default — whose edge profile reaches half a pixel (3/5 across a vertex) further (hex_clear_of_border_antialiased) — both also restated over the regenerated size / pitch / hex_to_rc expressions the driver runs; drawing and padding commute, cropping is sub-array extraction. PARTIAL: equal area up to edge sampling is checked on the real code only (no theorem); '
               'float rounding of the edge test and of the ceil in the array size is not modelled.')
 LEVEL_NOTE = ('Trusted: Lean kernel, py2lean subset semantics, NumPy slicing/reshape/any/where semantics as modelled in '
               'Model/Geometry.lean, float sqrt/sin/cos (model run at Float, tolerance 1e-9; binary masks compared except where the '
